@@ -292,6 +292,19 @@ static void res_shard(long shard, void *arg) {
         }
     }
 }
+/* a reserved name that is NOT at the end: followed by one more label of every length 1..63 (a one-character label is what a root-dot test by
+ * length confuses with the root), by table rows of several classes, by another reserved word and by two labels; with 0-2 labels in front */
+static void trailing_shard(long shard, void *arg) {
+    (void)arg; const char *suf = RES[shard]; char d[400], t[80];
+    static const char *const FR[] = { "", "b.", "a.b.", "example.", "www.test." };
+    static const char *const TL[] = { "com", "uk", "museum", "xn--p1ai", "arpa", "test", "example", "localhost", "invalid", "onion", "a.b", "x.com", "1a", "a1", "q-q", "zzzzq", "co.uk", "COM", "A" };
+    for (unsigned f = 0; f < sizeof FR / sizeof FR[0]; f++) {
+        for (int tl = 1; tl <= 63; tl++) for (int k = 0; k < 2; k++) { for (int i = 0; i < tl; i++) t[i] = (char)(k ? 'A' + (i * 7 + tl) % 26 : 'a' + (i + tl) % 26); t[tl] = 0;
+            int n = snprintf(d, sizeof d, "%s%s.%s", FR[f], suf, t); if (n > 0 && n <= 253) check_class("reserved-notlast", d, (size_t)n); }
+        for (unsigned j = 0; j < sizeof TL / sizeof TL[0]; j++) { int n = snprintf(d, sizeof d, "%s%s.%s", FR[f], suf, TL[j]); if (n > 0 && n <= 253) check_class("reserved-notlast", d, (size_t)n); }
+        for (int c = 0; c < 36; c++) { int n = snprintf(d, sizeof d, "%s%s.%c", FR[f], suf, c < 26 ? 'a' + c : '0' + c - 26); if (n > 0) check_class("reserved-notlast", d, (size_t)n); }
+    }
+}
 /* one-edit neighbours of each reserved suffix, with 0-2 preceding labels of assorted lengths */
 static void neigh_shard(long shard, void *arg) {
     (void)arg; const char *suf = RES[shard];
@@ -360,6 +373,7 @@ int main(int argc, char **argv) {
     mc_parallel("libtable: every row of the library's own tld_list as last label (lower and upper case)", (libtable_rows() + 63) / 64, libtable_shard, NULL);
 #else
     mc_parallel("reserved: 8 suffixes x preceding label length 0..63 x case patterns x 1-3 labels", 8 * 64, res_shard, NULL);
+    mc_parallel("reserved names followed by one more label of every length 1..63, by table rows, reserved words, two labels; 5 fronts", 8, trailing_shard, NULL);
     mc_parallel("neighbours: one-edit neighbours of the 8 suffixes x 9 prefixes x 2 cases", 8, neigh_shard, NULL);
 #endif
     if (corpus_load()) return 2;
